@@ -5,6 +5,7 @@ package main
 // is recorded (HANG / OOM) instead of taking the harness down.
 
 import (
+	"bytes"
 	"bufio"
 	"encoding/hex"
 	"fmt"
@@ -116,6 +117,11 @@ func workerMain() {
 		var b []byte
 		if len(parts) > 1 {
 			b, _ = hex.DecodeString(parts[1])
+		}
+		if parts[0] == "scribble" {
+			fmt.Fprintln(out, scribble(b))
+			out.Flush()
+			continue
 		}
 		exact := make([]byte, len(b)) // exact capacity
 		copy(exact, b)
@@ -271,4 +277,66 @@ func (p *WorkerPool) Close() {
 		p.w.in.Close()
 		p.w.kill()
 	}
+}
+
+// scribble: C12.  Parse the frame twice from two private copies (one of them inside a larger
+// buffer, as the stream's pooled buffers are); dump and encode the first message as the
+// reference; overwrite every byte of the second copy's backing array with its complement,
+// dump; overwrite it with noise, dump and encode.  A decoder that kept a view of any
+// non-empty part of its input shows up as a changed dump or encoding (the complement changes
+// every byte).
+func scribble(b []byte) (line string) {
+	outcome, re, lenv, dumpEq, encEq, extra := 0, []byte(nil), 0, 1, 1, "-"
+	defer func() {
+		if r := recover(); r != nil {
+			line = fmt.Sprintf("2 . %s 0 0/0", strings.ReplaceAll(fmt.Sprint(r), " ", "_"))
+		}
+	}()
+	ref := append(make([]byte, 0, len(b)), b...)
+	back := make([]byte, len(b)+96)
+	copy(back[32:], b)
+	in := back[32 : 32+len(b)] // spare capacity behind, other data in front
+	mRef, errRef := of.Parse(ref)
+	m, err := of.Parse(in)
+	if (errRef == nil) != (err == nil) {
+		return "5 . nondeterministic 0 0/0"
+	}
+	if err != nil {
+		return "1 . - 0 1/1"
+	}
+	if m == nil || isNilMsg(m) {
+		return "5 . neither 0 0/0"
+	}
+	canonAll = true
+	defer func() { canonAll = false }()
+	d0 := canonString(mRef)
+	if canonString(m) != d0 {
+		return "5 . nondeterministic-dump 0 0/0"
+	}
+	for i := range back {
+		back[i] = ^back[i]
+	}
+	if canonString(m) != d0 {
+		dumpEq, extra = 0, "complement"
+	}
+	x := uint64(len(b))*0x9e3779b97f4a7c15 + 1
+	for i := range back {
+		x ^= x << 13
+		x ^= x >> 7
+		x ^= x << 17
+		back[i] = byte(x)
+	}
+	if dumpEq == 1 && canonString(m) != d0 {
+		dumpEq, extra = 0, "noise"
+	}
+	reRef, e1 := mRef.MarshalBinary()
+	re, e2 := m.MarshalBinary()
+	lenv = int(m.Len())
+	if (e1 == nil) != (e2 == nil) || !bytes.Equal(re, reRef) {
+		encEq = 0
+	}
+	if e2 != nil {
+		re = nil
+	}
+	return fmt.Sprintf("%d %s. %s %d %d/%d", outcome, hex.EncodeToString(re), extra, lenv, dumpEq, encEq)
 }
